@@ -116,6 +116,12 @@ type internalError struct {
 	origError         error
 }
 
+// Unwrap returns the wrapped error so that errors.Is / errors.As can reach the original node,
+// cancellation or max-steps error through the graph's error wrappers.
+func (i *internalError) Unwrap() error {
+	return i.origError
+}
+
 func (i *internalError) Error() string {
 	sb := strings.Builder{}
 	sb.WriteString(string("[" + i.typ + "]\n"))
